@@ -8,8 +8,10 @@ CONSTANTS
   ServerRun = TRUE
   CasLoserErrors = TRUE
   ExitCheckAfterHandler = TRUE
+  HooksConcurrent = TRUE
   CountAtAccept = TRUE
-  BeyondWait = 100
+  BeyondWait = 200
+  SlowWait = 300
   PairMod = 4
   NTriple = 6
   HookMod = 4
